@@ -199,7 +199,14 @@ def check_natvis(ck, types, inst, std, m, fields, forms, recs, counters):
     ranges = None
     if cap is not None:
         ranges = {('mem', (norm.arg(0) + cap[1]).key(), cap[2]): (inst.N, None)}
-    inl = m.normal_form('svn_m_inlined').expr
+    try:
+        inl = m.normal_form('svn_m_inlined').expr
+    except common.AnalysisBroken as e:
+        # the observer is no longer a closed form the normaliser understands (e.g. the raw word does
+        # not hold the capacity any more): the inlined/allocated announcements cannot be compared,
+        # the by-field comparisons below still are
+        inl = None
+        ck.note('inlined () has no normal form for %s: %s' % (inst.V, str(e)[:200]))
     for tk, ti, ii, base, t, it in plan:
         role = it['role']
         expr = it['expr']
@@ -263,6 +270,9 @@ def check_natvis(ck, types, inst, std, m, fields, forms, recs, counters):
             if role[1] is None:
                 raise common.AnalysisBroken('C20: %s: cannot tell which state the DisplayString with condition `%s` announces'
                                             % (NV_REL, expr))
+            if inl is None:
+                ck.note('state announcement `%s` not compared: inlined () has no normal form' % expr)
+                continue
             if not isinstance(got.expr, norm.Pred) or not isinstance(inl, norm.Pred):
                 raise common.AnalysisBroken('C20: condition `%s` or inlined () did not normalise to a comparison' % expr)
             want = inl if role[1] == 'inlined' else norm.not_(inl)
